@@ -294,7 +294,15 @@ fn c03_round<K: lasso::Key + std::hash::Hash + Send + Sync + 'static>(
             spin_barrier(&arrived, threads);
             for j in 0..per {
                 // a shared string (raced by several threads) or one of this thread's own
-                let s = if r.chance(1, 3) { format!("shared-{}", r.below(shared as u64)) } else { format!("t{t}-{j}") };
+                // near the end of the key space: new strings that several threads ask for at the same moment
+                let near_end = capacity.map(|c| (j + 1) * threads + 48 >= c).unwrap_or(false);
+                let s = if near_end && r.chance(1, 2) {
+                    format!("late-{}", r.below(64))
+                } else if r.chance(1, 3) {
+                    format!("shared-{}", r.below(shared as u64))
+                } else {
+                    format!("t{t}-{j}")
+                };
                 let res = if r.chance(1, 5) {
                     let st: &'static str = Box::leak(s.clone().into_boxed_str());
                     rodeo.try_get_or_intern_static(st)
